@@ -260,9 +260,12 @@ def entriesFor (c : Cache) (name : BList) (ty : Nat) : List Entry :=
   else if ty = 16 then (c.txt.get name).getD []
   else []
 
-/-- `get_known_answers(name, qtype, now)` -/
+/-- `get_known_answers(name, qtype, now)`: shared records before their half-life of which at
+    least half the TTL is really left until `expires` (the end of a record's life can have been
+    brought forward by a cache flush or by `verify`; repair of C10-F1) -/
 def knownAnswers (c : Cache) (name : BList) (ty : Nat) (now : Nat) : List Entry :=
-  (entriesFor c name ty).filter fun e => !e.record.isUnique && !e.record.halflifePassed now
+  (entriesFor c name ty).filter fun e =>
+    !e.record.isUnique && !e.record.halflifePassed now && decide (2 * (e.record.expires - now) ≥ 1000 * e.record.ttl)
 
 /-! ### Refresh look-ups -/
 
